@@ -77,4 +77,32 @@ structure Server where
 def refused (sv : Server) (user : String) (now : Int) : Bool :=
   user ≠ "" && !(checkQuota (sv.policies user) user sv.metrics now)
 
+/-! ## What a server session does with an open-session request (order of effects in `inputData`)
+
+`StreamUnderlay/PacketUnderlay.onOpenSessionRequest` creates the session, delivers the request segment
+to it and hands the session to `Accept` (`readySessions <- session`) unconditionally.
+`Session.input → inputData` FIRST inserts the segment — with the payload the client piggy-backed on
+the request, at most `MaxSessionOpenPayload` bytes — into `recvQueue`, and only THEN, for an
+open-session request on an attached server session, evaluates `checkQuota`; on refusal it sets
+`status = statusQuotaExhausted` and calls `Close()`, which deliberately keeps `recvQueue`
+("read is allowed after the session is closed"); `Session.Read` drains `recvQueue` before it looks at
+`closedChan`.  So the application that accepted the session can read the piggy-backed payload of a
+refused session.  (Not tied to the code by a run yet: needs the integrator's in-memory network.) -/
+
+structure OpenOutcome where
+  /-- handed to the application by `Accept` -/
+  accepted : Bool
+  refused : Bool
+  /-- close status sent to the client: 1 = quota exhausted, 0 = OK / still open -/
+  status : Nat
+  /-- bytes the server application can `Read` from the session because of this request -/
+  readable : List UInt8
+deriving Repr
+
+def statusQuotaExhausted : Nat := 1
+
+def onOpenRequest (sv : Server) (user : String) (payload : List UInt8) (now : Int) : OpenOutcome :=
+  let r := refused sv user now
+  { accepted := true, refused := r, status := if r then statusQuotaExhausted else 0, readable := payload }
+
 end Mieru.Quota
